@@ -232,11 +232,14 @@ Lemma u32_range x : 0 <= u32 x < 2 ^ 32.
 Proof. unfold u32, wrapu. apply Z.mod_pos_bound. lia. Qed.
 
 (** The bin limit fits the signed count: a negative nBins is rejected by the unsigned comparison. *)
-Lemma csi_read_bins_ok version binLimit s : 0 <= binLimit < 2 ^ 31 -> okle (csi_read_bins version binLimit s) s 4.
+Lemma csi_read_bins_ok version binLimit s : 0 <= binLimit < 2 ^ 30 -> okle (csi_read_bins version binLimit s) s 4.
 Proof.
   intros Hl. unfold csi_read_bins. apply (okle_weaken _ _ (4 + 0)); [|lia]. apply okle_rd_i32. intros n s1 E1.
   destruct (n =? 0); [apply okle_ret|].
-  destruct (binLimit <? u32 n) eqn:E; [apply okle_err|]. apply Z.ltb_ge in E.
+  destruct (u32 (binLimit + 1) <? u32 n) eqn:E; [apply okle_err|]. apply Z.ltb_ge in E.
+  assert (u32 (binLimit + 1) = binLimit + 1) as Hbl.
+  { unfold u32, wrapu. apply Z.mod_small. change (2 ^ 32) with 4294967296. change (2 ^ 30) with 1073741824 in Hl. lia. }
+  rewrite Hbl in E. change (2 ^ 30) with 1073741824 in Hl.
   assert (0 <= n) as Hn.
   { unfold rd_i32 in E1. destruct (take 4 s) as [[b s2]|]; [|discriminate]. inversion E1; subst.
     pose proof (s32_range (le_bytes b)) as R. set (v := s32 (le_bytes b)) in *.
@@ -249,7 +252,7 @@ Proof.
   apply csi_bins_loop_ok; [lia|]. rewrite Nat2Z.inj_succ. unfold zlen. lia.
 Qed.
 
-Lemma csi_indices_loop_ok version binLimit fuel : 0 <= binLimit < 2 ^ 31 -> forall s i n, zlen s < Z.of_nat fuel ->
+Lemma csi_indices_loop_ok version binLimit fuel : 0 <= binLimit < 2 ^ 30 -> forall s i n, zlen s < Z.of_nat fuel ->
   okle (csi_indices_loop version binLimit s i n fuel) s 0.
 Proof.
   intros Hl. induction fuel as [|f IH]; intros s i n Hf; [pose proof (zlen_nonneg s); simpl in Hf; lia|].
@@ -258,7 +261,7 @@ Proof.
   intros s1 E1. destruct (csi_read_bins_ok version binLimit s Hl) as [_ B1]. specialize (B1 s1 E1). apply IH. lia.
 Qed.
 
-Lemma csi_read_indices_safe version binLimit s : 0 <= binLimit < 2 ^ 31 -> safe (csi_read_indices version binLimit s).
+Lemma csi_read_indices_safe version binLimit s : 0 <= binLimit < 2 ^ 30 -> safe (csi_read_indices version binLimit s).
 Proof.
   intros Hl. unfold csi_read_indices. apply safe_bind; [apply rd_i32_safe|]. intros [n s1] _.
   destruct (n =? 0); [exact I|]. destruct (n <? 0) eqn:E; [exact I|]. apply Z.ltb_ge in E.
@@ -287,9 +290,9 @@ Proof.
   { apply csi_read_indices_safe.
     set (x := u32 (u32 (Z.shiftl 1 (u32 (u32 (depth + 1) * csi_nextBinShift))) - 1)).
     assert (0 <= x < 2 ^ 32) as Hx by apply u32_range.
-    assert (0 <= Z.quot x 7 < 2 ^ 31) as Hq.
-    { rewrite Z.quot_div_nonneg by lia. change (2 ^ 32) with 4294967296 in Hx. change (2 ^ 31) with 2147483648. lia. }
-    unfold u32, wrapu. rewrite Z.mod_small; [exact Hq|]. change (2 ^ 32) with 4294967296. change (2 ^ 31) with 2147483648 in Hq. lia. }
+    assert (0 <= Z.quot x 7 < 2 ^ 30) as Hq.
+    { rewrite Z.quot_div_nonneg by lia. change (2 ^ 32) with 4294967296 in Hx. change (2 ^ 30) with 1073741824. lia. }
+    unfold u32, wrapu. rewrite Z.mod_small; [exact Hq|]. change (2 ^ 32) with 4294967296. change (2 ^ 30) with 1073741824 in Hq. lia. }
   intros [nref s7] _. destruct ((zlen s7 =? 0) || (8 <=? zlen s7)); exact I.
 Qed.
 
